@@ -54,6 +54,7 @@ fn main() {
             "dataheader" => replay_one(&suites::shorthash::dataheader_suite(), &v["input"], &mut model),
             "shorthash" => replay_one(&suites::shorthash::shorthash_suite(), &v["input"], &mut model),
             "clivalues" => replay_one(&suites::clivalues::suite(), &v["input"], &mut model),
+            "cliargs" => replay_one(&suites::cliargs::suite(), &v["input"], &mut model),
             "topn" => replay_one(&suites::analyze::topn_suite(), &v["input"], &mut model),
             "normdetect" => replay_one(&suites::analyze::normalize_suite(), &v["input"], &mut model),
             "unpushed" => replay_one(&suites::sanity::Unpushed, &v["input"], &mut model),
@@ -85,6 +86,7 @@ fn main() {
             "striplookup" => suites::striplookup::run(&tier, seed, &mut model),
             "shorthash" => suites::shorthash::run(&tier, seed, &mut model),
             "clivalues" => suites::clivalues::run(&tier, seed, &mut model),
+            "cliargs" => suites::cliargs::run(&tier, seed, &mut model),
             "detect" => suites::analyze::run_detect(&tier, seed, &mut model),
             "commit" => vec![suites::commit::run_keep(&tier, seed, &mut model), suites::commit::run_parents(&tier, seed, &mut model), suites::commit::run_misc(&tier, seed, &mut model)],
             other => {
